@@ -100,9 +100,21 @@ def gen_trace(seed, world, tier):
             steps.append({"k": "rng", "op": "seed", "v": R_.randrange(10 ** 6), "client": 1})
     call = {"k": "fn", "fn": fn, "args": [A, Rk], "kwargs": kw, "client": 2, "tags": tags}
     steps.append(call)
-    if R_.random() < 0.3:
+    x2 = R_.random()
+    if x2 < 0.25:
         steps.append({"k": "rng", "op": "draw", "n": R_.randint(1, 50), "client": 1})
         steps.append(dict(call))                      # same A again, stream has moved on
+    elif x2 < 0.5 and (A.get("of") or A).get("gen") == "psvd":
+        # the client keeps ONE buffer: a second matrix of the same shape (same spectrum, other
+        # singular vectors) is written into it in place and decomposed with the same parameters
+        def reseed(sp):
+            if sp.get("gen") == "scale":
+                return dict(sp, of=reseed(sp["of"]))
+            return dict(sp, seed=sp["seed"] + 1)
+        call["args"] = [dict(call["args"][0], buf="X")] + call["args"][1:]
+        steps[-1] = call
+        call2 = dict(call, args=[dict(reseed(A), buf="X")] + call["args"][1:])
+        steps.append(call2)
     if R_.random() < 0.3:
         steps.append({"k": "repeat", "of": len(steps) - 1, "client": 0})
     return {"prop": PROP, "seed": seed, "world": world, "mode": "run", "steps": steps}
